@@ -2,6 +2,7 @@ package redisemu
 
 import (
 	"fmt"
+	"sync/atomic"
 )
 
 type (
@@ -45,7 +46,7 @@ type (
 	}
 )
 
-var signals int
+var signals int64 // wake signals created so far (atomic: the stores have separate locks)
 
 func newWaitTable() *waitTable {
 	return &waitTable{
@@ -56,10 +57,9 @@ func newWaitTable() *waitTable {
 // creates a wake signal object, one-to-one mapping to a client
 // (two clients cannot wait on the same wake signal)
 func newWakeSignal() *wakeSignal {
-	signals++
 	ws := &wakeSignal{
 		ready: make(chan struct{}, 1),
-		id:    signals,
+		id:    int(atomic.AddInt64(&signals, 1)),
 	}
 	return ws
 }
